@@ -122,6 +122,30 @@ def one(level, y, doy, hmsm, us_extra):
     return uniq
 
 
+def many_lines(case):
+    """an image with more than 1024 lines, every line stamped with the same fractional-second instant"""
+    level, L = case["level"], case["lines"]
+    y, doy, (h, mi, s, ms) = 2024, 60, (23, 59, 59, 999)
+    ms_of_day = ((h * 60 + mi) * 60 + s) * 1000 + ms
+    date = dt.date(y, 1, 1) + dt.timedelta(days=doy - 1)
+    inst = dt.datetime(date.year, date.month, date.day, h, mi, s, ms * 1000)
+    spec = treecheck.spec_from_case({"spec": {"level": level, "images": [["HH", None, L, 1]], "leader": {"n_att": 1, "n_chan": 1}}})
+    spec = synth.with_dev(spec, "img0", "line", "sensor_acquisition_date", struct.pack(">III", y, doy, ms_of_day), None)
+    if level == "1.1":
+        spec = synth.with_dev(spec, "img0", "line", "sensor_acquisition_date_microseconds", struct.pack(">Q", ms_of_day * 1000 + 7), None)
+    out = treecheck.check_spec(spec, only=["/imagery"], open_kw={"records_per_chunk": case["rpc"]} if case["rpc"] else None)
+    fails = out["failures"]
+    act = out.get("actual", {})
+    vals = [v[1] for v in act.get("/imagery/HH:sensor_acquisition_date", {}).get("values", [])]
+    if act and vals != [ns_of(inst)] * L:
+        bad = next((i for i, v in enumerate(vals) if v != ns_of(inst)), None)
+        fails.append({"sig": {"kind": "many-lines-time", "leaf": "/imagery/HH:sensor_acquisition_date"}, "detail": f"line {bad}: {vals[bad] if bad is not None else len(vals)} != {ns_of(inst)}"})
+    for f in fails:
+        f["detail"] = f"{level} image of {L} lines rpc={case['rpc']}: {f['detail']}"
+        f["case"] = {**case, "fn": "many_lines"}
+    return {"ok": not fails, "failures": fails[:4], "outcome": "many-lines-ok" if not fails else "many-lines-mismatch", "nontrivial": True, "n": 1}
+
+
 def execute(case):
     fails, n = [], 0
     seen = set()
@@ -142,11 +166,16 @@ def run(res, tier, seed):
         "instants = (every day [thorough] | days 1,2,59,60,61,365,366 [quick]) of every year 2014..2049 x times 00:00:00.000,"
         " 12:34:56.789, 23:59:59.999 (+0/1/999 us for the us-of-day stamp) x levels 1.5 and 1.1; each instant is written into all"
         " time fields of one product at once; every time leaf is compared with the instant (and the whole tree with the"
-        " reference model). A case is a batch of 6 days; all distinct, all non-trivial."
+        " reference model); plus images of 1025/1100/2049 lines (all per-line leaves compared) so that bulk code paths above the default"
+        " 1024-line chunk are exercised. A case is a batch of 6 days; all distinct, all non-trivial."
     )
     res.assumptions = ["day-of-year 1 = 1 January as the property states; leap seconds are not modelled"]
     n = 0
     for idx, case, out in core.pool_map(__name__, "execute", plan(tier), chunksize=1):
         res.record(case, out, order=idx)
         n += out["n"]
+    big = [{"level": lv, "lines": L, "rpc": rpc} for lv in ("1.5", "1.1") for L, rpc in ((1025, None), (1100, 512), (2049, None))]
+    for idx, case, out in core.pool_map(__name__, "many_lines", big, chunksize=1):
+        res.record({**case, "fn": "many_lines"}, out, order=10**6 + idx)
+        n += 1
     res.extra["products_opened"] = n
